@@ -292,6 +292,12 @@ class DictReader:
 
         self.parsed_doc = self.parsed_doc['Document']
 
+        # An empty entry, e.g. a YAML 'Document:' without any content, is an empty Document.
+        if self.parsed_doc is None:
+            self.parsed_doc = {}
+        elif not isinstance(self.parsed_doc, dict):
+            raise ParserException("Invalid odML document: 'Document' is not a dictionary.")
+
         doc_attrs = {}
         doc_secs = []
 
